@@ -252,7 +252,8 @@ type vipHarness struct {
 	inst                map[string]*vipInst
 	arrivals            []vipArrival
 	seen                map[*intraProxyStreamReceiver]bool // every receiver object ever seen in a table of this run
-	spun                map[int64]bool                     // pruned receivers that kept waiting for a local channel for a full bound (reported)
+	wasReady            map[*grpc.ClientConn]bool
+	spun                map[int64]bool // pruned receivers that kept waiting for a local channel for a full bound (reported)
 	nextID              int64
 	wait                time.Duration // bound of every wait for progress in the current run
 	waitFull, waitShort time.Duration
@@ -310,6 +311,7 @@ func (h *vipHarness) reset(sc *vipSched) {
 	h.arrivals = nil
 	h.seen = map[*intraProxyStreamReceiver]bool{}
 	h.spun = map[int64]bool{}
+	h.wasReady = map[*grpc.ClientConn]bool{}
 	h.nextID = 0
 	h.stop = make(chan struct{})
 	addrs := map[string]string{}
@@ -574,6 +576,43 @@ func (h *vipHarness) unsettled() []string {
 	h.mu.Unlock()
 	if need {
 		gids = vipLiveGIDs()
+	}
+	// client connections: a reconnect that is under way finishes (unless the peer is held); a connection that sits in its
+	// reconnect backoff is told to retry now - otherwise what a pass finds depends on the wall clock
+	for _, n := range h.names {
+		m := h.inst[n].sm.intraMgr
+		m.streamsMu.RLock()
+		for p, ps := range m.peers {
+			if ps.conn == nil {
+				continue
+			}
+			held := false
+			if pi, ok := h.inst[p]; ok {
+				pi.lis.mu.Lock()
+				held = pi.lis.held
+				pi.lis.mu.Unlock()
+			}
+			switch ps.conn.GetState() {
+			case connectivity.Ready:
+				h.wasReady[ps.conn] = true
+			case connectivity.Idle:
+				// a connection that was established and broke reconnects by itself (round_robin): IDLE is a passing state then
+				if h.wasReady[ps.conn] {
+					why = append(why, "reconnecting:"+n+">"+p)
+				}
+			case connectivity.TransientFailure:
+				// (the channel keeps reporting TRANSIENT_FAILURE until it is READY again: stable while the peer is held)
+				if !held {
+					ps.conn.ResetConnectBackoff()
+					why = append(why, "conn-backoff:"+n+">"+p)
+				}
+			case connectivity.Connecting:
+				if !held {
+					why = append(why, "connecting:"+n+">"+p)
+				}
+			}
+		}
+		m.streamsMu.RUnlock()
 	}
 	spin := h.spinIfSuspect()
 	h.mu.Lock()
@@ -864,6 +903,26 @@ func (h *vipHarness) snapshot(ev map[string]interface{}) {
 		}
 		h.inst[n].lis.mu.Unlock()
 	}
+	// state of the shared client connection per (instance, peer)
+	conn := [][]interface{}{}
+	for _, n := range h.names {
+		m := h.inst[n].sm.intraMgr
+		m.streamsMu.RLock()
+		ps := []string{}
+		for p := range m.peers {
+			ps = append(ps, p)
+		}
+		sort.Strings(ps)
+		for _, p := range ps {
+			st := "none"
+			if m.peers[p].conn != nil {
+				st = m.peers[p].conn.GetState().String()
+			}
+			conn = append(conn, []interface{}{n, p, st})
+		}
+		m.streamsMu.RUnlock()
+	}
+	ev["conn"] = conn
 	ev["local"], ev["view"], ev["recv"], ev["send"], ev["cli"], ev["srv"], ev["arr"], ev["held"] = local, view, recv, send, cli, srv, arr, held
 }
 
